@@ -69,3 +69,45 @@ Proof.
   - apply in_map_iff in Hin. destruct Hin as (l & <- & _). eauto.
   - destruct Hin as [<-|[]]; auto.
 Qed.
+
+(* ---------------- provider sets ---------------- *)
+(* C05: an accepted set (any nesting) has exactly one source per provided type *)
+Theorem process_set_one_source tyorder args s pm :
+  process_set tyorder args s = inl pm ->
+  keys pm = Sets.provided (to_core args s) /\ NoDup (Sets.provided (to_core args s)) /\ verify tyorder pm = [].
+Proof. unfold process_set. apply process_one_source. Qed.
+
+(* what the flattened closure provides, spelled out on the concrete set *)
+Lemma provided_to_core args id imports provs sprovs vals flds binds :
+  Sets.provided (to_core args (RSet id imports provs sprovs vals flds binds)) =
+  map fst (arg_entries 0 args) ++ flat_map (fun x => Sets.provided (to_core [] x)) imports ++
+  map fst (direct_entries (all_provs provs sprovs) vals flds) ++ map bd_iface binds.
+Proof.
+  cbn [to_core Sets.provided]. f_equal. f_equal.
+  - induction imports as [|x r IH]; cbn; auto. rewrite IH. reflexivity.
+  - f_equal. rewrite map_map. apply map_ext. intros b. reflexivity.
+Qed.
+
+Lemma arg_entries_keys : forall args i, map fst (arg_entries i args) = args.
+Proof. induction args as [|t r IH]; intros i; cbn; auto. rewrite IH. reflexivity. Qed.
+
+(* C11: every binding of an accepted set has its concrete type among the keys of that same set's map *)
+Theorem process_set_colocated tyorder args id imports provs sprovs vals flds binds pm :
+  process_set tyorder args (RSet id imports provs sprovs vals flds binds) = inl pm ->
+  forall b, In b binds -> In (bd_conc b) (keys pm).
+Proof.
+  unfold process_set. cbn [to_core]. intros H b Hb.
+  apply (process_colocated _ _ _ _ _ _ _ _ _ _ _ H (bd_iface b) (bd_conc b) (bd_id b)).
+  apply in_map_iff. exists b. split; auto.
+Qed.
+
+(* an accepted set has no front-end item error and all of its imports are accepted *)
+Theorem process_set_items_ok tyorder args id imports provs sprovs vals flds binds pm :
+  process_set tyorder args (RSet id imports provs sprovs vals flds binds) = inl pm ->
+  flat_map func_provider_errs provs ++ flat_map sprov_errs sprovs = [].
+Proof.
+  unfold process_set. cbn [to_core]. intros H. rewrite process_unfold in H.
+  destruct (process_list _ _ _ _ _) as [ms es].
+  destruct (es ++ _) as [|e0 es1] eqn:Ee; [|discriminate].
+  apply app_eq_nil in Ee. tauto.
+Qed.
